@@ -8,6 +8,7 @@ from ..interp import Analyzer, State, analyze, truth
 from ..model import AnalysisError
 from ..report import Ctx, where
 from ..shape import Shapes, TOP
+from ..strtpl import flatten
 from ..terms import show, walk
 from .immut import fresh_view
 from .shape_rules import cache_root, cache_stores, shapes_contradiction
@@ -163,11 +164,11 @@ def _assembly(ctx, rule, fi, r, st, node, entries, netloc, results):
     comps = None
     if netloc[0] == "call" and netloc[1][0] == "global" and netloc[1][2] == "make_netloc" and len(netloc[2]) >= 4:
         comps = dict(zip(("raw_user", "raw_password", "host", "explicit_port"), netloc[2][:4]))
-    elif netloc[0] == "fstr":
-        fm = [p[1] for p in netloc[1] if p[0] == "fmt"]
-        cs = [p[1] for p in netloc[1] if p[0] == "const"]
-        if len(fm) == 2 and cs == [":"]:
-            comps = {"raw_user": ("const", None), "raw_password": ("const", None), "host": fm[0], "explicit_port": fm[1]}
+    elif flatten(netloc) != [("val", netloc)]:
+        # `<host>:<port>` written as a template in any spelling (f-string, format, %, concatenation)
+        parts = flatten(netloc)
+        if len(parts) == 3 and parts[0][0] != "lit" and parts[1] == ("lit", ":") and parts[2][0] != "lit":
+            comps = {"raw_user": ("const", None), "raw_password": ("const", None), "host": parts[0][1], "explicit_port": parts[2][1]}
     elif netloc[0] != "const":
         comps = {"raw_user": ("const", None), "raw_password": ("const", None), "host": netloc, "explicit_port": ("const", None)}
     if comps is None:
